@@ -5,6 +5,7 @@ import GrmVerif.Drive.C01
 import GrmVerif.Drive.C09
 import GrmVerif.Drive.C11
 import GrmVerif.Drive.C12
+import GrmVerif.Drive.C20
 /-! `gvdriver`: one request per line `<prop> <case-id> <nat>…`; replies are prefixed with the case id. -/
 open GrmVerif.Drive
 
@@ -17,6 +18,7 @@ def dispatch (prop : String) (args : List Nat) : String :=
   | "C09" => C09.handle args
   | "C11" => C11.handle args
   | "C12" => C12.handle args
+  | "C20" => C20.handle args
   | _ => "bad-prop"
 
 def prefixLines (id : String) (s : String) : String :=
